@@ -128,12 +128,12 @@ func c18PodMultisets(kinds []c18Pod, max int) [][]c18Pod {
 }
 
 type c18Part struct {
-	name  string
-	rule  string
-	cfgs  []c18Cfg
-	size  int64                                         // snapshots per configuration
-	build func(cfg *c18Cfg, i int64, rd *c18Round)      // fills rd for snapshot i
-	prep  func(cfg *c18Cfg) any                         // optional per-configuration tables
+	name   string
+	rule   string
+	cfgs   []c18Cfg
+	size   int64                                    // snapshots per configuration
+	build  func(cfg *c18Cfg, i int64, rd *c18Round) // fills rd for snapshot i
+	prep   func(cfg *c18Cfg) any                    // optional per-configuration tables
 	buildP func(cfg *c18Cfg, tab any, i int64, rd *c18Round)
 	bounds map[string]any
 }
@@ -271,6 +271,13 @@ var c18Assumptions = []string{
 // c18Vacuity turns never-exercised clauses into a diagnostic that the reader of the evidence cannot miss.
 func c18Vacuity(res *mc.Result, part string) {
 	need := []string{"evict_calls_judged", "premise_no_node_overloaded"}
+	if strings.HasPrefix(part, "round-") {
+		need = append(need, "evict_calls_justified_by_node_tier", "evict_calls_justified_by_prod_tier", "rounds_stopped_by_estimate_back_under",
+			"rounds_with_repeat_eviction_on_still_over_estimate", "rounds_ending_with_headroom_used_up", "rounds_rejected_pod_left_on_source",
+			"premise_no_node_underused", "premise_all_nodes_underused", "rounds_overloaded_but_no_target")
+	} else if strings.HasPrefix(part, "hist-k2") || strings.HasPrefix(part, "hist-k3") {
+		need = append(need, "rounds_anomaly_held_back", "rounds_anomaly_released")
+	}
 	for _, k := range need {
 		if res.Counters[k] == 0 {
 			res.Diag("VACUITY WARNING: counter " + k + " is zero in part " + part)
